@@ -20,6 +20,9 @@ HANDWRITTEN = [
     "$[?length(match(@.a, 'x')) == 1]", "$[?count(length(@.a)) > 1]", "$[?match(count(@.*), 'a')]", "$[?value(length(@)) == 1]",
     "$[?length(search(@, 'a')) > 0]", "$[?count(value(@.*)) == 1]", "$[?match(@.a, match(@.b, 'c'))]", "$[?length(@.a, !@.b) == 1]",
     "$[?match(@.a, 'x', (@.b))]", "$[?count(@.*, 1, 2) == 1]", "$[?value() == 1]", "$[?nosuch(length(@))]",
+    "$[?match((\"a\"), value(@.b))]", "$[?search(('a'), length(@.b))]", "$[?match((1), match(@.a, 'b'))]",
+    "$[?match(value(@.b), (\"a\"))]", "$[?length((\"a\")) == 1]", "$[?count((1), @.a) == 1]", "$[?(@ @)]", "$[?(@.a !@.b)]",
+    "$[?count((@.a, 1)) > 1]", "$[?((@.a) 1)]", "$[?(@.a (@.b))]",
     "$[?(@.a 1)]", "$[?(@.a @.b)]", "$[?(@.a == 1 2)]", "$[?!(@.a null)]", "$[?count((@.* 1)) == 1]", "$[?(1 2) == 3]",
     "$[?count(@[?@['a','b'] == 1]) == 1]", "$[?@[?@[0,1] == 1]]", "$[?@[ 'a' , 'b' ] == 1]", "$[?@[0 , 1] == 1]",
 ]
